@@ -467,9 +467,33 @@ func checkTableKeys(c *core.Ctx) {
 						if cd == fmt.Sprintf("(param#%d < 0);", len(callee.Params)-1) {
 							excluded = guardedBy(ins.Block(), func(cond ssa.Value) int {
 								// to < 0 possibly or-ed with other tests: in SSA an `a || b` condition becomes a chain; accept the direct form
-								cb, ok := cond.(*ssa.BinOp)
-								if ok && cb.X == ssa.Value(p) && cb.Op == token.LSS {
-									if k, isK := cb.Y.(*ssa.Const); isK && k.Value != nil && k.Int64() == 0 {
+								isNeg := func(v ssa.Value) bool {
+									cb, ok := v.(*ssa.BinOp)
+									if ok && cb.X == ssa.Value(p) && cb.Op == token.LSS {
+										if k, isK := cb.Y.(*ssa.Const); isK && k.Value != nil && k.Int64() == 0 {
+											return true
+										}
+									}
+									return false
+								}
+								if isNeg(cond) {
+									return -1
+								}
+								// switch-form: `case !ok || to < 0:` is evaluated as a value, a phi of `true` and the last
+								// disjunct; when the phi is false every disjunct that is one of its edges is false
+								if ph, isPhi := cond.(*ssa.Phi); isPhi {
+									has := false
+									for _, e := range ph.Edges {
+										if k, isK := e.(*ssa.Const); isK && k.Value != nil && k.Value.String() == "true" {
+											continue
+										}
+										if isNeg(e) {
+											has = true
+											continue
+										}
+										return 0
+									}
+									if has {
 										return -1
 									}
 								}
